@@ -336,7 +336,7 @@ func relayFaults(a *Args) {
 				// warm-up probe, then a burst with the victim at position pos, then a probe afterwards
 				n++
 				wg.Add(1)
-				run(relayPath(rng, n, []int{10}), false, 30*time.Second)
+				run(relayPath(rng, n, []int{10}), false, 10*time.Second)
 				for c := 0; c < total; c++ {
 					n++
 					if c == pos {
@@ -349,7 +349,7 @@ func relayFaults(a *Args) {
 						continue
 					}
 					wg.Add(1)
-					go run(relayPath(rng, n, []int{0, 1, 100, 5000, 70000}), false, 30*time.Second)
+					go run(relayPath(rng, n, []int{0, 1, 100, 5000, 70000}), false, 10*time.Second)
 					if c%3 == 0 {
 						time.Sleep(time.Millisecond)
 					}
@@ -357,7 +357,7 @@ func relayFaults(a *Args) {
 				wg.Wait()
 				n++
 				wg.Add(1)
-				run(relayPath(rng, n, []int{10}), false, 30*time.Second)
+				run(relayPath(rng, n, []int{10}), false, 10*time.Second)
 			}
 			e.finalEvent(res)
 			res.Case("fault:"+kind+fmt.Sprintf(":pos%d", pos), map[string]interface{}{"kind": kind, "position": pos, "healthy_concurrent": total - 1})
@@ -525,6 +525,11 @@ func shimInputVictims(res *hx.Result, proxyAddr string, wg *sync.WaitGroup, n in
 	json.Unmarshal(body, &r)
 	hx.Emit("ShimSession", "status", st, "opened", st == 200 && r.ID != "")
 	if st != 200 || r.ID == "" {
+		if st == 0 {
+			// no answer at all: the agent or the proxy is gone - the scenario's Final event says so; not a harness failure
+			res.Note("shim-input: no answer to the shim open call (the agent is not serving)")
+			return
+		}
 		res.Bad("shim-input: could not open a live shim session through the agent (status %d): the message shapes were not exercised", st)
 		return
 	}
